@@ -44,6 +44,8 @@ pub enum Step {
         #[serde(default)]
         by_previous_set: bool,
     },
+    /// the owner upgrades the gateway and completes the migration: delay setting and rotation clock are carried over
+    UpgradeAndMigrate,
 }
 
 #[derive(Clone, Debug, Serialize, Deserialize)]
@@ -65,6 +67,7 @@ fn dt() -> impl Strategy<Value = Dt> {
 fn step() -> impl Strategy<Value = Step> {
     prop_oneof![
         2 => dt().prop_map(Step::Advance),
+        1 => Just(Step::UpgradeAndMigrate),
         3 => (
             prop_oneof![3 => Just(false), 1 => Just(true)],
             prop_oneof![3 => Just(true), 1 => Just(false)],
@@ -118,6 +121,10 @@ impl Property for C09 {
 
         for (k, st) in case.steps.iter().enumerate() {
             match st {
+                Step::UpgradeAndMigrate => {
+                    upgrade_and_migrate(&env, &gw.id).map_err(|e| format!("step {}: {}", k, e))?;
+                    cx.label("upgrade_and_migration_in_history");
+                }
                 Step::Advance(dt) => {
                     let target = match dt {
                         Dt::Zero => now,
